@@ -81,7 +81,22 @@ def run_case(i, rng, tier):
     def bad(msg, **kw):
         failures.append(C.fail(None, msg, **dict(wit, **kw)))
 
-    live = C.fill_all(S.build(sp), stream)
+    vectorised = i % 6 == 4 and S.has_quantity(sp) and not reloaded
+    if vectorised:
+        # a state reached by a vectorised fill with some zero weights: it holds categories / sparse bins of zero
+        # entries, which scaling has to carry along like everything else (h*1 == h, h*2 == h+h on the real results)
+        recs = _np_safe(sp, [r for r, _ in stream])
+        ws = [rng.choice([1.0, 0.5, 2.0, 0.0, 0.0, 3.0]) for _ in recs]
+        bat = B.Batch(B.columns(recs), "dict")
+        rows = B.rows(bat.saved, len(recs))
+        stream = list(zip(rows, ws))
+        wit["stream"] = C.stream_json(stream)
+        wit["vectorised"] = True
+        live = S.build(sp)
+        live.fill.numpy(bat.data, B.weights_array(ws))
+        counters["vectorised_operand"] = 1
+    else:
+        live = C.fill_all(S.build(sp), stream)
     h = Factory.fromJson(json.loads(json.dumps(live.toJson()))) if reloaded else live
     if pickled:
         import pickle
@@ -94,7 +109,11 @@ def run_case(i, rng, tier):
         return O.observe(x)
 
     # 1. product vs refill with weights*f, both operator orders
-    twin = C.fill_all(S.build(sp), [(r, w * f) for r, w in stream])
+    if vectorised:
+        twin = S.build(sp)
+        twin.fill.numpy(B.Batch(B.columns(recs), "dict").data, B.weights_array([w * f for w in ws]))
+    else:
+        twin = C.fill_all(S.build(sp), [(r, w * f) for r, w in stream])
     want = obs(twin)
     prods = {}
     for name, fn in (("h*f", lambda: h * f), ("f*h", lambda: f * h)):
@@ -155,6 +174,9 @@ def run_case(i, rng, tier):
         if not ok and not inc:
             bad("after %s the product differs from the model: %s" % (what, C.fmt_diff(d)), op=what)
 
+    for nm_, x_ in (("h*f", p), ("f*h", prods["f*h"]), ("(h*f)*g", (h * f) * g)):
+        for v in H.accessor_violations(x_, counters=counters):
+            bad("%s: accessor invariant broken: %s" % (nm_, v), op="accessors")
     try:
         hash(p)
         counters["hashed"] = 1
@@ -235,7 +257,7 @@ def _transform_case(i, rng, tier):
 
 def conclusive(agg):
     out = []
-    for c in ("live_operand", "reloaded_operand", "pickled_operand", "refill_comparisons", "nonpositive_factor_checked", "laws_checked", "hashed", "serialised", "filled", "filled_numpy", "merged", "transform_refusals_checked"):
+    for c in ("live_operand", "reloaded_operand", "pickled_operand", "vectorised_operand", "refill_comparisons", "nonpositive_factor_checked", "laws_checked", "hashed", "serialised", "filled", "filled_numpy", "merged", "transform_refusals_checked"):
         if not agg.counters.get(c):
             out.append("never exercised: " + c)
     miss = [k for k in S.ALL_KINDS if k not in agg.sets.get("kinds", ())]
